@@ -6,7 +6,9 @@ pub struct SequenceEqual<'a, Item>
 where
   Item: Clone + Send + Sync,
 {
-  zip_op: operators::Zip<'a, Item>,
+  // every input is followed by an end marker (None), so that sequences of different
+  // length meet in a tuple that pairs an item with the marker and compare as different
+  zip_op: operators::Zip<'a, Option<Item>>,
 }
 
 impl<'a, Item> SequenceEqual<'a, Item>
@@ -14,7 +16,11 @@ where
   Item: Clone + Send + Sync + PartialEq,
 {
   pub fn new(observables: &[Observable<'a, Item>]) -> SequenceEqual<'a, Item> {
-    SequenceEqual { zip_op: operators::Zip::new(observables) }
+    let marked = Vec::from_iter(observables.iter().map(Self::with_end_marker));
+    SequenceEqual { zip_op: operators::Zip::new(&marked) }
+  }
+  fn with_end_marker(o: &Observable<'a, Item>) -> Observable<'a, Option<Item>> {
+    o.map(|x| Some(x)).concat(&[observables::just(None)])
   }
   pub fn execute(&self, source: Observable<'a, Item>) -> Observable<'a, bool> {
     let zip_op = self.zip_op.clone();
@@ -28,8 +34,8 @@ where
       let sctl_error = sctl.clone();
       let sctl_complete = sctl.clone();
 
-      zip_op.execute(source).inner_subscribe(sctl.new_observer(
-        move |serial, x: Vec<Item>| {
+      zip_op.execute(Self::with_end_marker(&source)).inner_subscribe(sctl.new_observer(
+        move |serial, x: Vec<Option<Item>>| {
           let check = x.get(0).unwrap();
           if !x.iter().all(|i| i == check) {
             sctl_next.upstream_abort_observe(&serial);
